@@ -1,14 +1,29 @@
 #!/usr/bin/env python3
-"""Renders /verif/seeded/*/meta.json as the markdown table of DESIGN.md Appendix J."""
-import json, os, glob
+"""Renders the table of DESIGN.md Appendix J from /verif/seeded/notes.json (what each change is, in which round it was
+written, whether the check caught it BLIND, what was strengthened) and /verif/seeded/*/meta.json (what the latest
+evaluation by tools/seed_eval.py found)."""
+import json, os
 ROOT = os.path.dirname(os.path.dirname(os.path.abspath(__file__)))
-rows = []
-for f in sorted(glob.glob(os.path.join(ROOT, "seeded", "*", "meta.json"))):
-    m = json.load(open(f))
-    what = m.get("summary") or m.get("needs_to_manifest", "")[:160]
-    det = ", ".join(m.get("detected_by", [])) or ("-" if m.get("confirmed") else "n/a")
-    how = m.get("how_detected", "")
-    rows.append(f"| {m['id']} | {m.get('breaks','')} | {'yes' if m.get('confirmed') else 'NO'} | {det} | {what} {how} |")
-print("| change | breaks | confirmed (107 green, demo fails with / passes without) | caught by `./check <P> quick` | what it is / needs |")
+notes = json.load(open(os.path.join(ROOT, "seeded", "notes.json")))
+rows, caught, blind = [], 0, {}
+for i in sorted(notes):
+    n = notes[i]
+    mp = os.path.join(ROOT, "seeded", i, "meta.json")
+    m = json.load(open(mp)) if os.path.exists(mp) else {}
+    det = ", ".join(m.get("detected_by", []))
+    if det:
+        caught += 1
+    else:
+        det = "**not detected**"
+    if n.get("blind"):
+        b = blind.setdefault(n["round"], [0, 0])
+        b[1] += 1
+        b[0] += n["blind"] == "caught"
+    conf = "" if m.get("confirmed") else " (NOT confirmed)"
+    rows.append(f"| {i} | {n['round']} | {n['what']}{conf} | {det} | {n.get('remark', '')} |")
+print("| change | round | what it is | caught by (`./check <P> quick`, exit 1 + VIOLATION) | strengthening / remark |")
 print("| --- | --- | --- | --- | --- |")
 print("\n".join(rows))
+print()
+print(f"{caught} of the {len(rows)} changes are caught by the check of the property they break. Blind results: "
+      + "; ".join(f"round {r}: {b[0]} of {b[1]} caught by the machinery as it was" for r, b in sorted(blind.items())) + ".")
